@@ -75,7 +75,7 @@ def spell_number(rng, v):
     opts = ["dec", "hex"]
     if -(1 << 63) <= v < (1 << 64):
         opts.append("int")
-    if abs(v) < 10 ** 15:
+    if abs(v) < 10 ** 14:  # json.dumps writes "<v>.0": keep the written significand within 15 digits
         opts.append("float")
     how = rng.choice(opts)
     if how == "int":
